@@ -350,6 +350,7 @@ type rEnv struct {
 	post    *State // state at the evaluation point
 	useOld  bool
 	useHead bool
+	useEntry bool
 	vars    map[string]Value // lets, spec params, function params, results
 	typs    map[string]types.Type
 	specs   map[string]*SpecFn
@@ -357,6 +358,7 @@ type rEnv struct {
 	bound   map[string]Term
 	err     error
 	depth   int
+	entry    *State // state when the current loop was entered (atentry)
 	head     *State // state at the head of the current loop iteration (athead)
 	iterKey  string // loop whose current iteration the iter() trace queries refer to
 	assuming bool // the formula is being assumed: universally quantified facts become instantiable facts
@@ -366,6 +368,9 @@ type rEnv struct {
 func (env *rEnv) st() *State {
 	if env.useHead && env.head != nil {
 		return env.head
+	}
+	if env.useEntry && env.entry != nil {
+		return env.entry
 	}
 	if env.useOld {
 		return env.pre
@@ -518,6 +523,15 @@ func (env *rEnv) eval(n *rNode) Value {
 		if mv, ok := base.(VMap); ok {
 			return env.mapIndex(mv, env.eval(n.Args[1]), n)
 		}
+		if _, isNil := base.(VNil); isNil {
+			if mt, ok := env.typeOf(n.Args[0]).Underlying().(*types.Map); ok {
+				if _, vs, absent, ok := mapSorts(mt); ok && absent.S != "" {
+					_ = vs
+					return sym(absent) // a nil map has no entries
+				}
+				return env.e.zeroOf(mt.Elem())
+			}
+		}
 		if bs, ok := base.(VSym); ok {
 			it := env.term(n.Args[1])
 			switch bs.T.Sort {
@@ -595,8 +609,9 @@ func (env *rEnv) eval(n *rNode) Value {
 			body := n.Args[0]
 			vars := copyVars(env.vars)
 			typs, specs, eng, pre := env.typs, env.specs, env.e, env.pre
+			head, entry, iterKey := env.head, env.entry, env.iterKey
 			env.post.addInst(sort, func(s *State, t Term) Term {
-				sub := &rEnv{e: eng, pre: pre, post: s, vars: copyVars(vars), typs: typs, specs: specs}
+				sub := &rEnv{e: eng, pre: pre, post: s, vars: copyVars(vars), typs: typs, specs: specs, head: head, entry: entry, iterKey: iterKey}
 				sub.vars[name] = sym(t)
 				r := sub.term(body)
 				if sub.err != nil {
